@@ -8,6 +8,11 @@
 //   state suite   random Allocate / Deallocate / DeallocateIf / DeallocateAll / MergeFrom / destructor
 //                 histories: every answer, every memory-manager call, the buffer list, the cache and (at
 //                 dumps) every byte of pool metadata are compared with the model.
+//   world suite   (part 5) several real pools with TAGGED memory managers: Swap / move construction / move assignment /
+//                 MergeFrom / Allocate / Deallocate / DeallocateAll / destruction against the model engine "poolworld";
+//                 every manager call is compared together with the manager that was called.
+//   u32 suite     (part 6) the real momo::internal::MemPoolUInt32 against the model engine "poolu32": indices returned, every
+//                 manager call (buffers and the storage of the buffer array), real pointers, head, count, free chain.
 // Property-level oracle (FAIL lines): alignment, blocks inside memory obtained from the manager, pairwise
 // disjoint, pattern bytes of live blocks intact, canary bytes outside owned memory intact, allocated count
 // = number of live blocks, DeallocateIf asks about exactly the live blocks, ledger of the manager exact and
@@ -53,6 +58,8 @@ struct Arena {
 	std::deque<long long> answers;		// chosen offsets for the next Allocate calls; -1 = throw
 	uint64_t requests = 0, faults = 0, frees = 0;
 	uint64_t garbage = 0x1234567;
+	bool tagEvents = false;				// world suite: events carry the tag of the manager that was called
+	std::map<size_t, int> liveTag;		// world suite: which manager handed out an outstanding allocation
 
 	static uint8_t canary(size_t off) { return (uint8_t)(0xA5u ^ (off * 37u) ^ (off >> 9)); }
 
@@ -109,8 +116,9 @@ struct Arena {
 		}
 	}
 
-	void* allocate(size_t size) {
+	void* allocate(size_t size, int tag = 0) {
 		++requests;
+		if (tag < 0) c->fail("C09 manager: Allocate(%zu) through a moved-from memory manager", size);
 		long long ans = -1;
 		if (!answers.empty()) { ans = answers.front(); answers.pop_front(); }
 		else c->fail("harness: the pool asked the memory manager more often than addresses were prepared");
@@ -120,13 +128,22 @@ struct Arena {
 		live[off] = size;
 		VF_UNPOISON(mem + off, size);
 		fillRaw(off, size, false);
-		events.push_back(fmt("M%zu:%zu", off, size));
+		if (tagEvents) { events.push_back(fmt("M%zu:%zu@%d", off, size, tag)); liveTag[off] = tag; }
+		else events.push_back(fmt("M%zu:%zu", off, size));
 		return mem + off;
 	}
-	void deallocate(void* ptr, size_t size) noexcept {
+	void deallocate(void* ptr, size_t size, int tag = 0) noexcept {
 		++frees;
 		long long r = rel(ptr);
-		events.push_back(fmt("F%lld:%zu", r, size));
+		if (tagEvents) {
+			events.push_back(fmt("F%lld:%zu@%d", r, size, tag));
+			auto lt = (r >= 0) ? liveTag.find((size_t)r) : liveTag.end();
+			if (tag < 0) c->fail("C09 manager: Deallocate(arena+%lld, %zu) through a moved-from memory manager", r, size);
+			else if (lt != liveTag.end() && lt->second != tag)
+				c->fail("C09 manager: memory arena+%lld obtained from memory manager %d is given back to memory manager %d", r, lt->second, tag);
+			if (lt != liveTag.end()) liveTag.erase(lt);
+		}
+		else events.push_back(fmt("F%lld:%zu", r, size));
 		auto it = (r >= 0) ? live.find((size_t)r) : live.end();
 		if (it == live.end() || it->second != size) {
 			c->fail("C09 ledger: Deallocate(arena+%lld, %zu) matches no outstanding Allocate", r, size);
@@ -143,6 +160,7 @@ struct Arena {
 	void forgetAll() {
 		for (auto& kv : live) { fillRaw(kv.first, kv.second, true); VF_POISON(mem + kv.first, kv.second); }
 		live.clear();
+		liveTag.clear();
 	}
 	std::string takeEvents() {
 		std::string s;
@@ -154,17 +172,22 @@ struct Arena {
 
 static Arena g_arena;
 
+// A memory manager with an identity: `tag` (0 in the suites that use one manager). Managers with different tags are
+// different managers (not IsEqual): memory must go back to the manager it came from. A moved-from manager gets tag -1 in the
+// world suite (`g_markMovedFrom`), so that any later call through it is visible.
+static bool g_markMovedFrom = false;
 class Mgr {
 public:
-	explicit Mgr(Arena* a) noexcept : ar(a) {}
-	Mgr(Mgr&& m) noexcept : ar(m.ar) {}
-	Mgr(const Mgr& m) noexcept : ar(m.ar) {}
+	explicit Mgr(Arena* a, int t = 0) noexcept : ar(a), tag(t) {}
+	Mgr(Mgr&& m) noexcept : ar(m.ar), tag(m.tag) { if (g_markMovedFrom) m.tag = -1; }
+	Mgr(const Mgr& m) noexcept : ar(m.ar), tag(m.tag) {}
 	~Mgr() noexcept {}
 	Mgr& operator=(const Mgr&) = delete;
-	void* Allocate(size_t size) { return ar->allocate(size); }
-	void Deallocate(void* ptr, size_t size) noexcept { ar->deallocate(ptr, size); }
-	bool IsEqual(const Mgr& m) const noexcept { return ar == m.ar; }
+	void* Allocate(size_t size) { return ar->allocate(size, tag); }
+	void Deallocate(void* ptr, size_t size) noexcept { ar->deallocate(ptr, size, tag); }
+	bool IsEqual(const Mgr& m) const noexcept { return ar == m.ar && tag == m.tag; }
 	Arena* ar;
+	int tag;
 };
 
 struct PoolSettings : public momo::MemPoolSettings {
@@ -394,11 +417,13 @@ static void runDll(Ctx& c, Rng& rng)
 		Pool a(momo::MemPoolParams<3, 0>(16, 8), Mgr(&ar)), b(momo::MemPoolParams<3, 0>(16, 8), Mgr(&ar));
 		const size_t k = (size_t)rng.range(2, 9);
 		std::vector<Byte*> node(k);
+		std::vector<long long> nodeOff(k, -1);
 		std::vector<bool> dead(k, false);
 		const size_t size = a.pvGetBufferSize();
 		for (size_t i = 0; i < k; ++i) {
 			long long off = chooseFree(ar, rng, 8, size, 4096, 4096 + 64 * size);
 			ar.answers.assign(1, off);
+			nodeOff[i] = off;
 			node[i] = a.pvNewBuffer();
 		}
 		ar.takeEvents();
@@ -482,9 +507,30 @@ static void runDll(Ctx& c, Rng& rng)
 		c.stats.evaluations++;
 		c.stats.nontrivial("dll " + desc + " " + joinRel(std::vector<long long>(perm.begin(), perm.end())));
 		if (round < 3) c.stats.sample("dll " + desc);
-		// give everything back through the real DeallocateAll (needs an intact list)
+		// give everything back through the real DeallocateAll (needs an intact list); before that walk the real links from the
+		// head (model op `pwalk`), then compare the ORDER in which DeallocateAll gives the buffers back (model op `pdall`)
 		a.mData.allocCount = 0; b.mData.allocCount = 0;
-		if (a.mFreeBufferHead != nullptr) a.DeallocateAll();
+		if (a.mFreeBufferHead != nullptr) {
+			auto joinSp = [](const std::vector<long long>& v) { std::string r; for (size_t i = 0; i < v.size(); ++i) { if (i) r += ' '; r += std::to_string(v[i]); } return r; };
+			std::vector<long long> fw, bw, order;
+			size_t steps = 0;
+			for (Byte* p = a.mFreeBufferHead; p != nullptr && steps++ <= k; p = a.pvGetNextBuffer(p)) fw.push_back(idOf(p));
+			for (Byte* p = a.pvGetPrevBuffer(a.mFreeBufferHead); p != nullptr && steps++ <= 2 * k; p = a.pvGetPrevBuffer(p)) bw.push_back(idOf(p));
+			long long headId = idOf(a.mFreeBufferHead);
+			s.op(fmt("pwalk %lld", headId)); s.res("f=[" + joinSp(fw) + "] b=[" + joinSp(bw) + "]");
+			ar.takeEvents();
+			a.DeallocateAll();
+			std::string ev = ar.takeEvents();
+			for (size_t pos = 0; (pos = ev.find('F', pos)) != std::string::npos; ++pos) {
+				long long off = atoll(ev.c_str() + pos + 1), id = -2;
+				for (size_t i = 0; i < k; ++i) if (nodeOff[i] == off) id = (long long)i;
+				order.push_back(id);
+			}
+			s.op(fmt("pdall %lld", headId)); s.res("[" + joinSp(order) + "]");
+			std::vector<long long> want(bw); want.insert(want.end(), fw.begin(), fw.end());
+			if (order != want) c.fail("C09 DeallocateAll: dll round '%s': buffers given back [%s], the list was pre=[%s] post=[%s]", desc.c_str(), joinSp(order).c_str(), joinSp(bw).c_str(), joinSp(fw).c_str());
+			c.stats.count("dll.walk_and_dall");
+		}
 		ar.takeEvents();
 		if (!ar.live.empty()) { c.fail("C09 returned: dll round '%s' left %zu buffers with the manager", desc.c_str(), ar.live.size()); ar.forgetAll(); }
 	}
@@ -906,6 +952,477 @@ static void runStateN(Ctx& c, Rng& rng, Suite& s, unsigned count, unsigned lengt
 	runHistories<N, 16>(c, rng, s, count, length);
 }
 
+// ------------------------------------------------------------------------------------------------ world suite (part 5)
+// Several real pools with tagged memory managers (tags 1 and 2 = two different managers, tag -1 = moved-from). The pools of
+// one history share blockCount / cache size (template constants) and use two (block size, alignment) settings, so that
+// Swap and the move operations visibly carry parameters, manager, count, buffers and cache from one object to another.
+
+template<size_t N, size_t C>
+struct World {
+	typedef PoolNC<N, C> Pool;
+	struct Obj {
+		std::unique_ptr<Pool> pool;
+		std::vector<UserBlock> blocks;		// user-live blocks that must be freed through THIS object
+		bool movedFrom = false;
+	};
+	Ctx& c; Rng& rng; Suite& s; Arena& ar;
+	size_t reqSize[2], algn[2];
+	std::map<int, Obj> objs;
+	std::map<long long, size_t> allLive;	// rel -> block size
+	uint32_t nextTag = 1;
+	int nextId = 1;
+	unsigned opNo = 0;
+	std::string cfgName;
+	unsigned swaps = 0, moves = 0, assigns = 0, merges = 0;
+
+	World(Ctx& c_, Rng& rng_, Suite& s_) : c(c_), rng(rng_), s(s_), ar(g_arena) {}
+
+	static uint8_t pat(uint32_t tag, size_t j) { return (uint8_t)(tag * 131u + j * 7u + 1u); }
+	static size_t bufSizeOf(Pool& p) { return (N > 1) ? p.pvGetBufferSize() : (p.pvGetAlignmentAddend() == 0 ? p.pvGetBufferSize0() : p.pvGetBufferSize1()); }
+	void guard(bool on) {
+#if defined(__SANITIZE_ADDRESS__)
+		for (auto& kv : allLive) { if (on) VF_POISON(ar.mem + kv.first, kv.second); else VF_UNPOISON(ar.mem + kv.first, kv.second); }
+#else
+		(void)on;
+#endif
+	}
+	void writePattern(const UserBlock& ub, size_t S) { uint8_t* p = ar.mem + ub.rel; for (size_t j = 0; j < S; ++j) p[j] = pat(ub.tag, j); }
+	void checkPattern(int id, const UserBlock& ub, size_t S, const char* when) {
+		const uint8_t* p = ar.mem + ub.rel;
+		for (size_t j = 0; j < S; ++j)
+			if (p[j] != pat(ub.tag, j)) { c.fail("C09 live block overwritten: world %s object %d block arena+%lld byte %zu (%s, op %u)", cfgName.c_str(), id, ub.rel, j, when, opNo); return; }
+	}
+	void checkAllPatterns(const char* when) { for (auto& kv : objs) if (kv.second.pool) for (auto& ub : kv.second.blocks) checkPattern(kv.first, ub, kv.second.pool->GetBlockSize(), when); }
+
+	std::string digest(Pool& pool) {
+		std::vector<long long> cache, pre, post;
+		void* cb = pool.mCacheHead;
+		for (size_t i = 0; i < pool.mCachedCount && i < 100000; ++i) { cache.push_back(ar.rel(cb)); cb = momo::internal::MemCopyer::FromBuffer<void*>(cb); }
+		if (pool.mFreeBufferHead != nullptr) {
+			size_t steps = 0;
+			for (Byte* b = pool.pvGetPrevBuffer(pool.mFreeBufferHead); b != nullptr && steps++ < 100000; b = pool.pvGetPrevBuffer(b)) pre.push_back(ar.rel(b));
+			for (Byte* b = pool.mFreeBufferHead; b != nullptr && steps++ < 100000; b = pool.pvGetNextBuffer(b)) post.push_back(ar.rel(b));
+		}
+		return fmt("S=%zu A=%zu mgr=%d n=%zu c=[", pool.GetBlockSize(), pool.GetBlockAlignment(), pool.GetMemManager().tag, pool.GetAllocateCount())
+			+ joinRel(cache) + "] pre=[" + joinRel(pre) + "] post=[" + joinRel(post) + "]";
+	}
+	void checkCount(int id) {
+		Obj& o = objs[id];
+		if (o.pool->GetAllocateCount() != o.blocks.size())
+			c.fail("C09 count: world %s object %d reports %zu allocated blocks, %zu are live (op %u)", cfgName.c_str(), id, o.pool->GetAllocateCount(), o.blocks.size(), opNo);
+	}
+
+	int opNew() {
+		int id = nextId++;
+		unsigned k = (unsigned)rng.below(2);
+		int tag = rng.chance(2, 3) ? 1 : 2;
+		Obj& o = objs[id];
+		o.pool.reset(new Pool(momo::MemPoolParams<N, C>(reqSize[k], algn[k]), Mgr(&ar, tag)));
+		s.op(fmt("new %d %zu %zu %zu %zu %d", id, o.pool->GetBlockSize(), o.pool->GetBlockAlignment(), N, C, tag));
+		s.res("legal=1 | " + digest(*o.pool));
+		c.stats.count("world.op.new");
+		return id;
+	}
+	void opAlloc(int id, bool fault) {
+		Obj& o = objs[id]; Pool& pool = *o.pool;
+		const size_t S = pool.GetBlockSize(), A = pool.GetBlockAlignment(), g = allocAlignOf(A), bufSize = bufSizeOf(pool);
+		const size_t window = std::min<size_t>(Arena::arenaSize - 4096, 65536 + bufSize * 64);
+		ar.answers.clear();
+		long long a1 = -1, a2 = -1;
+		if (fault) ar.answers.assign(2, -1);
+		else {
+			a1 = chooseFree(ar, rng, g, bufSize, 0, window);
+			if (a1 < 0) { c.fail("harness: no free address in the window"); a1 = 0; }
+			ar.live[(size_t)a1] = bufSize; a2 = chooseFree(ar, rng, g, bufSize, 0, window); ar.live.erase((size_t)a1);
+			ar.answers.push_back(a1); ar.answers.push_back(a2);
+		}
+		void* blk = nullptr; bool threw = false;
+		guard(true);
+		try { blk = pool.Allocate(); } catch (const std::bad_alloc&) { threw = true; }
+		guard(false);
+		std::string ev = ar.takeEvents();
+		s.op(fault ? fmt("alloc %d fail", id) : fmt("alloc %d %lld %lld", id, a1, a2));
+		if (threw) { s.res("E:bad_alloc | " + ev + " | " + digest(pool)); c.stats.count("world.fault_fired"); }
+		else {
+			long long r = ar.rel(blk);
+			s.res(std::to_string(r) + " | " + ev + " | " + digest(pool));
+			if ((uintptr_t)blk % A != 0) c.fail("C09 alignment: world %s object %d Allocate returned arena+%lld (op %u)", cfgName.c_str(), id, r, opNo);
+			if (r < 0 || ar.owner((size_t)r, S) == ar.live.end()) c.fail("C09 inside: world %s object %d block [%lld,%lld) is not inside memory obtained from a manager (op %u)", cfgName.c_str(), id, r, r + (long long)S, opNo);
+			auto nx = allLive.lower_bound(r);
+			if (nx != allLive.end() && nx->first < r + (long long)S) c.fail("C09 disjoint: world %s object %d block arena+%lld overlaps live block arena+%lld (op %u)", cfgName.c_str(), id, r, nx->first, opNo);
+			if (nx != allLive.begin()) { auto pv = std::prev(nx); if (pv->first + (long long)pv->second > r) c.fail("C09 disjoint: world %s object %d block arena+%lld overlaps live block arena+%lld (op %u)", cfgName.c_str(), id, r, pv->first, opNo); }
+			UserBlock ub{ r, nextTag++ };
+			writePattern(ub, S);
+			o.blocks.push_back(ub);
+			allLive[r] = S;
+		}
+		checkCount(id);
+		c.stats.count("world.op.alloc");
+	}
+	void opFree(int id) {
+		Obj& o = objs[id]; Pool& pool = *o.pool;
+		if (o.blocks.empty()) return;
+		size_t i = (size_t)rng.below(o.blocks.size());
+		UserBlock ub = o.blocks[i];
+		checkPattern(id, ub, pool.GetBlockSize(), "before Deallocate");
+		o.blocks[i] = o.blocks.back(); o.blocks.pop_back();
+		allLive.erase(ub.rel);
+		guard(true);
+		pool.Deallocate(ar.mem + ub.rel);
+		guard(false);
+		std::string ev = ar.takeEvents();
+		s.op(fmt("free %d %lld", id, ub.rel));
+		s.res("ok | " + ev + " | " + digest(pool));
+		checkCount(id);
+		c.stats.count("world.op.free");
+	}
+	void freeAllOf(int id) { while (!objs[id].blocks.empty()) opFree(id); }
+	void opDall(int id) {
+		Obj& o = objs[id];
+		for (auto& ub : o.blocks) allLive.erase(ub.rel);
+		o.blocks.clear();
+		guard(true);
+		o.pool->DeallocateAll();
+		guard(false);
+		std::string ev = ar.takeEvents();
+		s.op(fmt("dall %d", id)); s.res("ok | " + ev + " | " + digest(*o.pool));
+		checkCount(id);
+		c.stats.count("world.op.dall");
+	}
+	bool mergeable(int id1, int id2) {
+		Pool& a = *objs[id1].pool; Pool& b = *objs[id2].pool;
+		return id1 != id2 && !objs[id1].movedFrom && !objs[id2].movedFrom && a.GetBlockSize() == b.GetBlockSize() && a.GetBlockAlignment() == b.GetBlockAlignment()
+			&& a.GetMemManager().IsEqual(b.GetMemManager());
+	}
+	void opMerge(int id1, int id2) {
+		Obj& a = objs[id1]; Obj& b = objs[id2];
+		guard(true);
+		a.pool->MergeFrom(*b.pool);
+		guard(false);
+		std::string ev = ar.takeEvents();
+		for (auto& ub : b.blocks) a.blocks.push_back(ub);
+		b.blocks.clear();
+		s.op(fmt("merge %d %d", id1, id2));
+		s.res("ok | " + ev + " | " + digest(*a.pool) + " || " + digest(*b.pool));
+		checkCount(id1); checkCount(id2);
+		++merges; c.stats.count("world.op.merge");
+	}
+	void opSwap(int id1, int id2) {
+		Obj& a = objs[id1]; Obj& b = objs[id2];
+		guard(true);
+		if (rng.chance(1, 2)) a.pool->Swap(*b.pool); else swap(*a.pool, *b.pool);
+		guard(false);
+		std::string ev = ar.takeEvents();
+		std::swap(a.blocks, b.blocks); std::swap(a.movedFrom, b.movedFrom);
+		s.op(fmt("swap %d %d", id1, id2));
+		s.res("ok | " + ev + " | " + digest(*a.pool) + " || " + digest(*b.pool));
+		checkCount(id1); checkCount(id2);
+		++swaps; c.stats.count("world.op.swap");
+		if (a.pool->GetMemManager().tag != b.pool->GetMemManager().tag) c.stats.count("world.swap.different_managers");
+	}
+	void opMoveCtor(int idSrc) {
+		int id = nextId++;
+		Obj& src = objs[idSrc];
+		Obj& o = objs[id];
+		guard(true);
+		o.pool.reset(new Pool(std::move(*src.pool)));
+		guard(false);
+		std::string ev = ar.takeEvents();
+		o.blocks.swap(src.blocks); o.movedFrom = src.movedFrom; src.movedFrom = true;
+		s.op(fmt("mctor %d %d", id, idSrc));
+		s.res("ok | " + ev + " | " + digest(*o.pool) + " || " + digest(*src.pool));
+		checkCount(id); checkCount(idSrc);
+		if (src.pool->mFreeBufferHead != nullptr || src.pool->mCachedCount != 0 || src.pool->GetAllocateCount() != 0)
+			c.fail("C09 move: world %s object %d is not empty after it was moved from (op %u)", cfgName.c_str(), idSrc, opNo);
+		++moves; c.stats.count("world.op.move_construct");
+	}
+	void opMoveAssign(int idDst, int idSrc) {
+		freeAllOf(idDst);		// the destructor of the temporary checks allocCount == 0
+		Obj& dst = objs[idDst]; Obj& src = objs[idSrc];
+		size_t heldBefore = ar.live.size();
+		bool dstHadMemory = dst.pool->mFreeBufferHead != nullptr || dst.pool->mCachedCount != 0;
+		guard(true);
+		*dst.pool = std::move(*src.pool);
+		guard(false);
+		std::string ev = ar.takeEvents();
+		dst.blocks.swap(src.blocks); dst.movedFrom = src.movedFrom; src.movedFrom = true;
+		s.op(fmt("massign %d %d", idDst, idSrc));
+		s.res("ok | " + ev + " | " + digest(*dst.pool) + " || " + digest(*src.pool));
+		checkCount(idDst); checkCount(idSrc);
+		if (dstHadMemory && ar.live.size() >= heldBefore) c.fail("C09 returned: world %s move assignment to object %d gave nothing back although it held memory (op %u)", cfgName.c_str(), idDst, opNo);
+		++assigns; c.stats.count("world.op.move_assign");
+		if (dstHadMemory) c.stats.count("world.move_assign.target_held_memory");
+	}
+	void opDestroy(int id) {
+		if (N > 1 && !objs[id].blocks.empty() && rng.chance(1, 2)) opDall(id); else freeAllOf(id);
+		guard(true);
+		objs[id].pool.reset();
+		guard(false);
+		std::string ev = ar.takeEvents();
+		s.op(fmt("destroy %d", id)); s.res("ok | " + ev + " | store=0 singles=0");
+		objs.erase(id);
+		c.stats.count("world.op.destroy");
+	}
+	int randomObj() { auto it = objs.begin(); std::advance(it, (long)rng.below(objs.size())); return it->first; }
+
+	void run(unsigned length) {
+		ar.tagEvents = true; g_markMovedFrom = true;
+		opNew(); opNew();
+		for (opNo = 0; opNo < length; ++opNo) {
+			int id = randomObj();
+			Obj& o = objs[id];
+			unsigned r = (unsigned)rng.below(100);
+			if (r < 8 && objs.size() >= 2) { int id2 = randomObj(); if (id2 != id) opSwap(id, id2); }
+			else if (r < 13 && objs.size() < 5) opMoveCtor(id);
+			else if (r < 18 && objs.size() >= 2) { int id2 = randomObj(); if (id2 != id) opMoveAssign(id, id2); }
+			else if (r < 24 && objs.size() >= 2) {
+				std::vector<int> partners;
+				for (auto& kv : objs) if (mergeable(id, kv.first)) partners.push_back(kv.first);
+				if (!partners.empty()) opMerge(id, partners[(size_t)rng.below(partners.size())]);
+			}
+			else if (r < 28 && objs.size() < 5) opNew();
+			else if (r < 31 && objs.size() >= 3) opDestroy(id);
+			else if (r < 33 && N > 1 && !o.movedFrom) opDall(id);
+			else if (r < 36 && !o.movedFrom) opAlloc(id, true);
+			else if (!o.movedFrom) { if (rng.chance(o.blocks.size() < 3 * N + 2 ? 3u : 1u, 4) && allLive.size() < 200) opAlloc(id, false); else opFree(id); }
+			if (opNo % 16 == 15) checkAllPatterns("periodic");
+			c.stats.evaluations++;
+		}
+		while (!objs.empty()) opDestroy(objs.begin()->first);
+		if (!ar.live.empty()) { c.fail("C09 returned: world %s after all pools were destroyed the managers still hold %zu allocations (first arena+%zu)", cfgName.c_str(), ar.live.size(), ar.live.begin()->first); ar.forgetAll(); }
+		ar.checkCanary(0, 2 << 20, "end of world history");
+		ar.tagEvents = false; g_markMovedFrom = false;
+		if (swaps > 0 && moves + assigns > 0) c.stats.count("world.histories_nontrivial");
+		c.stats.count("world.histories");
+	}
+};
+
+template<size_t N, size_t C>
+static void runWorlds(Ctx& c, Rng& rng, Suite& s, unsigned count, unsigned length)
+{
+	for (unsigned h = 0; h < count; ++h) {
+		World<N, C> w(c, rng, s);
+		for (int k = 0; k < 2; ++k) {
+			switch (rng.below(4)) {
+			case 0: w.algn[k] = (size_t)rng.range(1, 16); break;
+			case 1: w.algn[k] = size_t{1} << rng.below(10); break;
+			case 2: { static const size_t odd[6] = { 3, 24, 48, 100, 272, 384 }; w.algn[k] = odd[rng.below(6)]; break; }
+			default: { static const size_t common[4] = { 4, 8, 16, 32 }; w.algn[k] = common[rng.below(4)]; break; }
+			}
+			w.reqSize[k] = rng.chance(1, 2) ? (size_t)rng.range(1, 80) : w.algn[k] * (size_t)rng.range(2, 4);
+		}
+		if (rng.chance(1, 2)) { w.algn[1] = w.algn[0]; w.reqSize[1] = w.reqSize[0]; }		// equal parameters: more merges
+		w.cfgName = fmt("N=%zu C=%zu (%zu,%zu)/(%zu,%zu) #%u", N, C, w.reqSize[0], w.algn[0], w.reqSize[1], w.algn[1], h);
+		s.comment("world " + w.cfgName);
+		w.run(length);
+		c.stats.nontrivial("world " + w.cfgName);
+		if (h == 0) c.stats.sample(fmt("world %s: %u ops, %u swaps, %u move constructions, %u move assignments, %u merges", w.cfgName.c_str(), length, w.swaps, w.moves, w.assigns, w.merges));
+	}
+}
+
+static void runWorld(Ctx& c, Rng& rng)
+{
+	Suite s(c, "world", fmt("model poolworld arena=%llu", (unsigned long long)(uintptr_t)g_arena.mem));
+	const unsigned count = c.thorough ? 12 : 4;
+	const unsigned length = c.thorough ? 1200 : 500;
+	runWorlds<1, 0>(c, rng, s, count, length);
+	runWorlds<1, 4>(c, rng, s, count, length);
+	runWorlds<2, 0>(c, rng, s, count, length);
+	runWorlds<3, 2>(c, rng, s, count, length);
+	runWorlds<5, 16>(c, rng, s, count, length);
+	runWorlds<32, 0>(c, rng, s, count, length);
+}
+
+// ------------------------------------------------------------------------------------------------ u32 suite (part 6)
+// momo::internal::MemPoolUInt32<blockCount, Mgr>: blocks addressed by 32-bit indices. Every request of the pool to its manager
+// (the buffers AND the storage of the buffer array `mBuffers`) gets a chosen address; the model predicts all of them.
+
+template<size_t N>
+struct U32History {
+	typedef momo::internal::MemPoolUInt32<N, Mgr> Pool;
+	Ctx& c; Rng& rng; Suite& s; Arena& ar;
+	size_t blockSize, maxTotal, S = 0;
+	std::unique_ptr<Pool> pool;
+	std::map<uint32_t, uint32_t> liveIdx;		// live index -> pattern tag
+	std::map<long long, uint32_t> liveAddr;		// real pointer (rel) -> index
+	uint32_t nextTag = 1;
+	unsigned opNo = 0, maxBuffers = 0, clears = 0, lengthErrors = 0;
+	std::string cfgName;
+
+	U32History(Ctx& c_, Rng& rng_, Suite& s_, size_t bs, size_t mt) : c(c_), rng(rng_), s(s_), ar(g_arena), blockSize(bs), maxTotal(mt) {}
+
+	static uint8_t pat(uint32_t tag, size_t j) { return (uint8_t)(tag * 197u + j * 11u + 3u); }
+	void guard(bool on) {
+#if defined(__SANITIZE_ADDRESS__)
+		for (auto& kv : liveAddr) { if (on) VF_POISON(ar.mem + kv.first, S); else VF_UNPOISON(ar.mem + kv.first, S); }
+#else
+		(void)on;
+#endif
+	}
+	std::string digest() {
+		std::vector<long long> bufs;
+		for (Byte* b : pool->mBuffers) bufs.push_back(ar.rel(b));
+		maxBuffers = std::max<unsigned>(maxBuffers, (unsigned)bufs.size());
+		return fmt("n=%zu head=%u bufs=[", pool->mAllocCount, (unsigned)pool->mBlockHead) + joinRel(bufs) + fmt("] cap=%zu", pool->mBuffers.GetCapacity());
+	}
+	void checkLive(const char* when) {
+		if (pool->mAllocCount != liveIdx.size()) c.fail("C09 count: u32 %s reports %zu allocated blocks, %zu are live (%s, op %u)", cfgName.c_str(), pool->mAllocCount, liveIdx.size(), when, opNo);
+		for (auto& kv : liveIdx) {
+			const uint8_t* p = pool->template GetRealPointer<uint8_t>(kv.first);
+			for (size_t j = 0; j < S; ++j) if (p[j] != pat(kv.second, j)) { c.fail("C09 live block overwritten: u32 %s index %u byte %zu (%s, op %u)", cfgName.c_str(), kv.first, j, when, opNo); break; }
+		}
+	}
+	void opAlloc(unsigned failAt) {		// failAt: 0 / 1 = the manager refuses its 1st / 2nd request of this call, 2 = no fault
+		const size_t bufSize = pool->pvGetBufferSize();
+		const size_t arrRoom = 8 * (2 * pool->mBuffers.GetCapacity() + 70);
+		const size_t window = 65536 + 96 * (bufSize + 64);
+		long long a[2];
+		ar.answers.clear();
+		std::vector<std::pair<size_t, size_t>> reserved;
+		for (int k = 0; k < 2; ++k) {
+			size_t room = std::max(bufSize, arrRoom);
+			a[k] = ((unsigned)k == failAt) ? -1 : chooseFree(ar, rng, 16, room, 4096, 4096 + window);
+			if (a[k] >= 0) { ar.live[(size_t)a[k]] = room; reserved.push_back({ (size_t)a[k], room }); }
+			ar.answers.push_back(a[k]);
+			if (a[k] < 0) { a[k] = -1; }
+		}
+		for (auto& r : reserved) ar.live.erase(r.first);
+		uint64_t reqBefore = ar.requests;
+		uint32_t idx = 0; int outcome = 0;
+		guard(true);
+		try { idx = pool->Allocate(); }
+		catch (const std::bad_alloc&) { outcome = 1; }
+		catch (const std::length_error&) { outcome = 2; }
+		guard(false);
+		std::string ev = ar.takeEvents();
+		s.op(fmt("alloc %lld %lld", a[0], a[1]));
+		if (outcome == 1) { s.res("E:bad_alloc | " + ev + " | " + digest()); c.stats.count("u32.fault_fired"); }
+		else if (outcome == 2) { s.res("E:length | " + ev + " | " + digest()); ++lengthErrors; c.stats.count("u32.length_error"); }
+		else {
+			s.res(std::to_string(idx) + " | " + ev + " | " + digest());
+			// property level
+			const size_t bufferCount = pool->mBuffers.GetCount();
+			if (idx == Pool::nullPtr || (size_t)idx >= bufferCount * N) c.fail("C09 u32: %s Allocate returned index %u outside the %zu buffers (op %u)", cfgName.c_str(), idx, bufferCount, opNo);
+			else {
+				if (liveIdx.count(idx)) c.fail("C09 u32: %s Allocate returned index %u which is live (op %u)", cfgName.c_str(), idx, opNo);
+				uint8_t* p = pool->template GetRealPointer<uint8_t>(idx);
+				long long r = ar.rel(p);
+				auto own = (r >= 0) ? ar.owner((size_t)r, S) : ar.live.end();
+				if (own == ar.live.end() || own->second != bufSize) c.fail("C09 inside: u32 %s index %u real block [%lld,%lld) is not inside a buffer obtained from the manager (op %u)", cfgName.c_str(), idx, r, r + (long long)S, opNo);
+				auto nx = liveAddr.lower_bound(r);
+				if (nx != liveAddr.end() && nx->first < r + (long long)S) c.fail("C09 disjoint: u32 %s index %u at arena+%lld overlaps live index %u (op %u)", cfgName.c_str(), idx, r, nx->second, opNo);
+				if (nx != liveAddr.begin()) { auto pv = std::prev(nx); if (pv->first + (long long)S > r) c.fail("C09 disjoint: u32 %s index %u at arena+%lld overlaps live index %u (op %u)", cfgName.c_str(), idx, r, pv->second, opNo); }
+				uint32_t tag = nextTag++;
+				for (size_t j = 0; j < S; ++j) p[j] = pat(tag, j);
+				liveIdx[idx] = tag; liveAddr[r] = idx;
+				s.op(fmt("rp %u", idx)); s.res(fmt("%lld %zu %zu", r, (size_t)idx / N, (size_t)idx % N));
+			}
+			c.stats.count(ar.requests != reqBefore ? "u32.alloc.new_buffer" : "u32.alloc.from_chain");
+		}
+		if (failAt < 2 && outcome == 0) c.stats.count("u32.fault_not_needed");
+		checkLive("after Allocate");
+		c.stats.count("u32.op.alloc");
+	}
+	void opFree() {
+		if (liveIdx.empty()) return;
+		auto it = liveIdx.begin(); std::advance(it, (long)rng.below(liveIdx.size()));
+		uint32_t idx = it->first;
+		long long r = ar.rel(pool->template GetRealPointer<uint8_t>(idx));
+		liveIdx.erase(it); liveAddr.erase(r);
+		uint64_t freesBefore = ar.frees;
+		guard(true);
+		pool->Deallocate(idx);
+		guard(false);
+		std::string ev = ar.takeEvents();
+		s.op(fmt("free %u", idx)); s.res("ok | " + ev + " | " + digest());
+		if (ar.frees != freesBefore) { ++clears; c.stats.count("u32.free.cleared_everything"); }
+		checkLive("after Deallocate");
+		c.stats.count("u32.op.free");
+	}
+	void opDall() {
+		liveIdx.clear(); liveAddr.clear();
+		guard(true);
+		pool->DeallocateAll();
+		guard(false);
+		std::string ev = ar.takeEvents();
+		s.op("dall"); s.res("ok | " + ev + " | " + digest());
+		if (!ar.live.empty()) c.fail("C09 returned: u32 %s DeallocateAll left %zu allocations with the manager (op %u)", cfgName.c_str(), ar.live.size(), opNo);
+		checkLive("after DeallocateAll");
+		c.stats.count("u32.op.dall");
+	}
+	void opDump() {
+		std::vector<long long> chain, live;
+		uint32_t h = pool->mBlockHead;
+		for (size_t steps = 0; h != Pool::nullPtr && steps < 100000; ++steps) {
+			if ((size_t)h >= pool->mBuffers.GetCount() * N) { c.fail("C09 free chain: u32 %s chain leaves the buffers at %u (op %u)", cfgName.c_str(), h, opNo); break; }
+			if (liveIdx.count(h)) { c.fail("C09 free chain: u32 %s chain contains live index %u (op %u)", cfgName.c_str(), h, opNo); break; }
+			chain.push_back(h);
+			h = Pool::pvGetNextBlock(pool->GetRealPointer(h));
+		}
+		for (auto& kv : liveIdx) live.push_back(kv.first);
+		s.op("dump"); s.res(digest() + " chain=[" + joinRel(chain) + "] live=[" + joinRel(live) + "]");
+		c.stats.count("u32.op.dump");
+	}
+	void run(unsigned length) {
+		pool.reset(new Pool(blockSize, Mgr(&ar), maxTotal));
+		S = pool->mBlockSize;
+		cfgName = fmt("N=%zu blockSize=%zu maxTotal=%zu", N, blockSize, maxTotal);
+		s.op(fmt("new %zu %zu %zu", N, blockSize, maxTotal));
+		s.res(fmt("S=%zu maxBuf=%zu bufSize=%zu", S, pool->mMaxBufferCount, pool->pvGetBufferSize()));
+		unsigned target = (unsigned)rng.range(1, (unsigned)(3 * N + 4));
+		for (opNo = 0; opNo < length; ++opNo) {
+			unsigned r = (unsigned)rng.below(100);
+			if (opNo % 20 == 19) target = (unsigned)rng.range(0, (unsigned)std::min<size_t>(6 * N + 6, 120));
+			if (r < 5) opDump();
+			else if (r < 7) opDall();
+			else if (r < 12) opAlloc((unsigned)rng.below(2));
+			else if (liveIdx.size() < target ? rng.chance(3, 4) : rng.chance(1, 4)) opAlloc(2); else opFree();
+			c.stats.evaluations++;
+		}
+		opDump();
+		while (!liveIdx.empty()) opFree();
+		guard(true);
+		pool.reset();
+		guard(false);
+		std::string ev = ar.takeEvents();
+		s.op("destroy"); s.res("ok | " + ev + " | n=0 head=4294967295 bufs=[] cap=0");
+		if (!ar.live.empty()) { c.fail("C09 returned: u32 %s after destruction the manager still holds %zu allocations (first arena+%zu)", cfgName.c_str(), ar.live.size(), ar.live.begin()->first); ar.forgetAll(); }
+		ar.checkCanary(0, 4 << 20, "end of u32 history");
+		if (maxBuffers >= 3 && clears >= 1) c.stats.count("u32.histories_nontrivial");
+		c.stats.count("u32.histories");
+	}
+};
+
+template<size_t N>
+static void runU32N(Ctx& c, Rng& rng, Suite& s, unsigned count, unsigned length)
+{
+	for (unsigned h = 0; h < count; ++h) {
+		size_t blockSize = rng.chance(1, 4) ? (size_t)rng.range(1, 4) : (size_t)rng.range(4, 48);
+		size_t maxTotal = rng.chance(1, 2) ? N * (size_t)rng.range(1, 6) + (size_t)rng.below(N) : (size_t)rng.range(1000, 4000000000u);
+		s.comment(fmt("u32 history N=%zu blockSize=%zu maxTotal=%zu #%u", N, blockSize, maxTotal, h));
+		U32History<N> hist(c, rng, s, blockSize, maxTotal);
+		hist.run(length);
+		c.stats.nontrivial(fmt("u32 %zu/%zu/%zu/%u", N, blockSize, maxTotal, h));
+		if (h == 0) c.stats.sample(fmt("u32 history %s: %u ops, max %u buffers, %u complete clears by Deallocate, %u length errors", hist.cfgName.c_str(), length, hist.maxBuffers, hist.clears, hist.lengthErrors));
+	}
+}
+
+static void runU32(Ctx& c, Rng& rng)
+{
+	Suite s(c, "u32", fmt("model poolu32 arena=%llu", (unsigned long long)(uintptr_t)g_arena.mem));
+	s.op("consts");
+	s.res(fmt("%u %zu %zu", (unsigned)momo::internal::MemPoolUInt32<4, Mgr>::nullPtr, sizeof(uint32_t), sizeof(Byte*)));
+	const unsigned count = c.thorough ? 14 : 5;
+	const unsigned length = c.thorough ? 700 : 300;
+	runU32N<1>(c, rng, s, count, length);
+	runU32N<2>(c, rng, s, count, length);
+	runU32N<3>(c, rng, s, count, length);
+	runU32N<4>(c, rng, s, count, length);
+	runU32N<16>(c, rng, s, count, length);
+	runU32N<64>(c, rng, s, count, length);
+}
+
+// (parts 5 and 6: the world suite and the u32 suite above.)
 // The harness is compiled as four executables (registry flags -DC09_PART=1..4) so that the template
 // instantiations compile in parallel: 1 = layout + dll suites, 2 = state suite for blockCount 1 and 2,
 // 3 = blockCount 3 and 5, 4 = blockCount 32 and 127.  Without C09_PART everything runs in one process.
@@ -942,8 +1459,14 @@ int main(int argc, char** argv)
 	runLayout(c, rng);
 	runDll(c, rng);
 #endif
-#if C09_PART != 1
+#if C09_PART == 0 || (C09_PART >= 2 && C09_PART <= 4)
 	runState(c, rng);
+#endif
+#if C09_PART == 0 || C09_PART == 5
+	runWorld(c, rng);
+#endif
+#if C09_PART == 0 || C09_PART == 6
+	runU32(c, rng);
 #endif
 	c.stats.count("manager.requests", g_arena.requests);
 	c.stats.count("manager.faults_injected", g_arena.faults);
